@@ -197,7 +197,9 @@ func (srv *Server) handleConn(conn net.Conn) {
 	logger.Info("New connection")
 	var tlsState *tls.ConnectionState
 	if tcon, ok := conn.(*tls.Conn); ok {
-		if err := tcon.Handshake(); err != nil {
+		// The handshake is bound to the server context, so that a peer which never completes it
+		// cannot keep Shutdown waiting beyond the grace period.
+		if err := tcon.HandshakeContext(srv.ctx); err != nil {
 			_ = tcon.Close()
 			logger.Warn("TLS handshake failure. Closing client connection", "err", err)
 			return
